@@ -376,7 +376,7 @@ func Check(c *core.Ctx) (map[string]any, []string, error) {
 		nsel, nJunk, s.maxRecs, s.truncMod = 0, 4000000, 160000, 8
 	}
 	s.vms.New = func() any { return newBox() }
-	fams := []string{"mut", "early", "after", "utf8", "ek", "idesc", "objdup", "rejunk"}
+	fams := []string{"mut", "early", "after", "utf8", "ek", "idesc", "objdup", "rejunk", "lexctx", "pragma"}
 	if f := os.Getenv("C04_FAMS"); f != "" {
 		fams = strings.Split(f, ",")
 	}
